@@ -19,6 +19,7 @@ def dispatch (line : String) : String :=
   | [] => ""
   | "c09" :: args => c09 args
   | "c05" :: args => c05 args
+  | "c05p" :: args => c05p args
   | "c16" :: args => c16 args
   | "c01" :: args => c01 args
   | "c18" :: args => c18 args
